@@ -203,7 +203,7 @@ func checkC32(r *Run) {
 			case "quit":
 				r.Check("C32-R4", "strand.Strand: leaving a wait on quit returns the pool-closed error given by the caller", r.P.Pos(e.Ret.Pos()), t == "$5", "returns "+t+" (the closure may still be running: its result is not final and reading it races with the strand goroutine)")
 			case "done":
-				r.Check("C32-R4", "strand.Strand: the closure's result is returned after done was closed", r.P.Pos(e.Ret.Pos()), t == "local:err", "returns "+t)
+				r.Check("C32-R4", "strand.Strand: the closure's result is returned after done was closed", r.P.Pos(e.Ret.Pos()), t == "local:error" || t == "var:error", "returns "+t)
 			default:
 				r.Check("C32-R4", "strand.Strand: every return is decided by the quit or the done case", r.P.Pos(e.Ret.Pos()), false, "return of "+t+" not under a quit/done case")
 			}
